@@ -513,7 +513,7 @@ def _error_text(s):
 
 def jobs(tier):
     q = tier == "quick"
-    T = 300 if q else 1200
+    T = 600 if q else 1200
     js = []
     total = _nstrings(2 if q else 3)
     for site in SITES:
